@@ -19,6 +19,12 @@ theorem rightHanded_of_jac (pts : List V3) (hlen : pts.length = 8)
   rw [hnil]
   simp [hlen]
 
+/-- number of chopped axes in every wire family of the joint model with `n` branches, family by family -/
+def jointFamilyCounts (n : Nat) : List Nat :=
+  match families (jointBlocks n halfQuads) with
+  | some labs => (chopsPerFamily labs (jointChopNodes n)).map (·.2)
+  | none => []
+
 theorem maxR_sub_minR_pos (a b : Rat) (h : a ≠ b) : 0 < maxR a b - minR a b := by
   unfold maxR minR
   by_cases hle : a ≤ b
